@@ -1,7 +1,7 @@
 #!/bin/sh
 # usage: tools/sweep.sh <tier> <seed> [<seed> ...]   -- runs every registered check for each seed, prints one line per run
 tier=$1; shift
-cd /verif
+cd "$(dirname "$0")/.." || exit 2
 for seed in "$@"; do
   for p in $(/venv/bin/python -c "import json;print(' '.join(c['property_id'] for c in json.load(open('MANIFEST.json'))['checks']))"); do
     out=$(VERIF_SEED=$seed ./check $p --tier $tier --no-evidence 2>&1); code=$?
